@@ -10,4 +10,7 @@ mod util;
 pub mod unit;
 
 #[cfg(feature = "verif-hooks")]
+pub mod verif_hooks_sm;
+
+#[cfg(feature = "verif-hooks")]
 pub mod verif_hooks_io;
